@@ -1623,6 +1623,11 @@ func c12GoRequiredUnionInitialised(ctx *Ctx, r *Report) {
 		if !ok || sel.Sel.Name != "IsStructGeneratedFromDisjunction" {
 			return true
 		}
+		// the test is made on the type of a *field* (the struct being initialised can itself be a union wrapper, whose
+		// branches are left alone: that test says nothing about the fields typed by a wrapper)
+		if strings.HasPrefix(exprString(sel.X), "objectType") {
+			return true
+		}
 		// not under a condition that looks the field up in the enclosing defaults
 		under := false
 		for _, ce := range enclosingConds(parents, c) {
